@@ -46,14 +46,18 @@ def gen(seed):
             sites.append({'site': 'module.import', 'ident': '%s.tests.%s' % (W.PKG, mod['name'])})
         if sites:
             e = dict(rng.choice(sites))
-            e.update({'a': 'die', 'how': rng.choice(HOWS), 'where': 'child'})
+            from .c07 import legal_how
+            e.update({'a': 'die', 'how': legal_how(e['site'], rng.choice(HOWS + ['sysexit', 'kbdint'])),
+                      'where': 'child'})
             spec['plan'].append(e)
             if not spec['opt'].get('j'):
                 spec['opt']['j'] = rng.randint(2, 3)
     elif r < 0.42 and world['layers']:
         L = rng.choice(world['layers'])['name']
         spec['plan'].append({'site': 'channel', 'ident': m.full(L), 'a': 'spawn_fail',
-                             'errno': rng.choice(['ENOMEM', 'EAGAIN', 'ENOENT'])})
+                             'errno': rng.choice(['ENOMEM', 'EAGAIN', 'ENOENT']),
+                             'exc': rng.choice(['OSError', 'OSError', 'ValueError',
+                                                'UnicodeEncodeError', 'SubprocessError'])})
         if not spec['opt'].get('j'):
             spec['opt']['j'] = rng.randint(2, 3)
     elif r < 0.55 and world['layers']:
